@@ -319,9 +319,15 @@ def part_fault_enum(ctx):
     p.samples = res[:3]
     p.info = dict(statements_per_operation=info["statements_per_operation"], exhaustive=info["exhaustive"])
     seen = set()
+    p.info["cancellation_not_delivered"] = 0
     for r in res:
         sc = r["scenario"]
         probs = []
+        if "cancellation not delivered" in r["call"]:
+            # the client-side cancellation did not reach the server's transaction within 3 s:
+            # the run says nothing about atomicity (the request simply completed)
+            p.info["cancellation_not_delivered"] += 1
+            continue
         if not r["errored"]:
             probs.append(("fault-not-reported", "no error was reported"))
         if not r["unchanged"]:
